@@ -12,12 +12,15 @@ namespace BR.Bridge.Inline
 theorem budget_source : BR.Gen.server.maxInlineSize = BR.Inline.maxInlineSize := by decide
 
 /-- `fits` = the first two tests; `!inline` branch: nothing to do for an empty slice, digest filled
-in, `Contains` then `Put` (a failing `Put` keeps the bytes inline and counts them); inline branch:
+in — or, when a digest is there and is not the digest of the bytes (`foreign`), the bytes stay inline
+—, `Contains` then `Put` (a failing `Put` keeps the bytes inline and counts them); inline branch:
 bytes already inline are counted, a nil or empty digest is left alone, a positive size is fetched -/
 def conds : List String :=
   ["0: (*inlinedSoFar + int64(len(*slice))) > maxInlineSize", "0: else",
    "1: digest != nil && *digest != nil && (*inlinedSoFar + (*digest).SizeBytes) > maxInlineSize",
-   "0: !inline", "1: len(*slice) == 0", "1: *digest == nil", "1: !found", "2: err == nil || err == io.EOF", "2: else",
+   "0: !inline", "1: len(*slice) == 0", "1: *digest == nil", "1: else",
+   "2: (*digest).Hash != sliceHash || (*digest).SizeBytes != int64(len(*slice))",
+   "1: !found", "2: err == nil || err == io.EOF", "2: else",
    "0: len(*slice) > 0", "0: digest == nil || *digest == nil || (*digest).SizeBytes == 0",
    "0: (*digest).SizeBytes > 0", "1: err != nil"]
 
